@@ -33,6 +33,13 @@
 static int omp_in_parallel(void) { return 0; }
 #endif
 
+#ifdef VERIF_COV
+extern void __gcov_dump(void);
+#define COV_FLUSH() __gcov_dump()
+#else
+#define COV_FLUSH() ((void)0)
+#endif
+
 #ifdef CARQUET_VERIF
 extern void (*carquet_verif_io_yield)(int site, int row_group, int column);
 #define HAVE_HOOK 1
@@ -68,7 +75,8 @@ static int parse_fspec(fspec_t* f, int t0) {
     f->nrg = atoi(h_tok[t0+3]); f->npages = atoi(h_tok[t0+4]); f->rpp = atoi(h_tok[t0+5]);
     f->seed = strtoull(h_tok[t0+6], NULL, 10);
     f->ncols = (int)strlen(f->types);
-    snprintf(f->path, sizeof f->path, "%s/c%d_%s_%d_%d_%d_%llu.parquet", f->dir, f->codec, f->types,
+    if (f->dir[0] == '@') snprintf(f->path, sizeof f->path, "%s", f->dir + 1);   /* an existing file, e.g. of tools/pq.py */
+    else snprintf(f->path, sizeof f->path, "%s/c%d_%s_%d_%d_%d_%llu.parquet", f->dir, f->codec, f->types,
              f->nrg, f->npages, f->rpp, (unsigned long long)f->seed);
     return t0 + 7;
 }
@@ -82,6 +90,7 @@ static carquet_physical_type_t type_phys(char t) {
         case 'f': return CARQUET_PHYSICAL_FLOAT;
         case 'b': return CARQUET_PHYSICAL_BYTE_ARRAY;
         case 'o': return CARQUET_PHYSICAL_BOOLEAN;
+        case 'x': return CARQUET_PHYSICAL_FIXED_LEN_BYTE_ARRAY;
         default:  return CARQUET_PHYSICAL_INT32;
     }
 }
@@ -91,6 +100,7 @@ static size_t type_size(char t) {
         case 'l': case 'd': return 8;
         case 'b': return sizeof(carquet_byte_array_t);
         case 'o': return 1;
+        case 'x': return 8;
         default: return 4;
     }
 }
@@ -98,6 +108,7 @@ static size_t type_size(char t) {
 /* Write the file described by f (page_size = 1 so that every write_batch closes one page). */
 static int make_file(const fspec_t* f) {
     struct stat sb;
+    if (f->dir[0] == '@') return stat(f->path, &sb) == 0 ? 0 : -9;
     if (stat(f->path, &sb) == 0 && sb.st_size > 12) return 0;
     char tmp[700];
     snprintf(tmp, sizeof tmp, "%s.tmp%d", f->path, (int)getpid());
@@ -107,7 +118,7 @@ static int make_file(const fspec_t* f) {
     for (int c = 0; c < f->ncols; c++) {
         char name[16]; snprintf(name, sizeof name, "c%d", c);
         if (carquet_schema_add_column(sc, name, type_phys(f->types[c]), NULL,
-                type_optional(f->types[c]) ? CARQUET_REPETITION_OPTIONAL : CARQUET_REPETITION_REQUIRED, 0) != CARQUET_OK) {
+                type_optional(f->types[c]) ? CARQUET_REPETITION_OPTIONAL : CARQUET_REPETITION_REQUIRED, (f->types[c] | 0x20) == 'x' ? 8 : 0) != CARQUET_OK) {
             carquet_schema_free(sc); return -2;
         }
     }
@@ -139,6 +150,7 @@ static int make_file(const fspec_t* f) {
                         case 'l': { int64_t y = (int64_t)(v % 100000u) + (int64_t)c * 1000000000ll; memcpy(vals + vs * nv, &y, 8); break; }
                         case 'd': { double y = (double)(v % 65536u) / 4.0 + (double)c; memcpy(vals + vs * nv, &y, 8); break; }
                         case 'o': { vals[nv] = (uint8_t)(v & 1); break; }
+                        case 'x': { memcpy(vals + vs * nv, &v, 8); break; }
                         case 'b': {
                             carquet_byte_array_t ba; char* s = strs + 24 * nv;
                             int L = snprintf(s, 24, "c%d-%llu", c, (unsigned long long)(v % 100000u));
@@ -310,11 +322,16 @@ static void rr_puts(rres_t* r, const char* s) {
     memcpy(r->text + r->tlen, s, n + 1); r->tlen += n;
 }
 
+static int g_proj = 0;   /* 1: project by index (last, first column), 2: by name */
 static void read_all(carquet_reader_t* rd, const fspec_t* f, int batch, int nthr, rres_t* out, int with_gates) {
     memset(out, 0, sizeof *out);
     out->h = FNV0;
     carquet_batch_reader_config_t cfg; carquet_batch_reader_config_init(&cfg);
     cfg.batch_size = batch; cfg.num_threads = nthr;
+    int32_t pidx[2] = { f->ncols - 1, 0 }; char pn0[16], pn1[16]; const char* pnames[2] = { pn0, pn1 };
+    snprintf(pn0, sizeof pn0, "c%d", f->ncols - 1); snprintf(pn1, sizeof pn1, "c0");
+    if (g_proj == 1) { cfg.column_indices = pidx; cfg.num_columns = 2; }
+    if (g_proj == 2) { cfg.column_names = pnames; cfg.num_column_names = 2; }
     carquet_error_t err = CARQUET_ERROR_INIT;
     carquet_batch_reader_t* br = carquet_batch_reader_create(rd, &cfg, &err);
     if (!br) { out->st[out->nst++] = -(int)err.code - 1000; return; }
@@ -338,7 +355,8 @@ static void read_all(carquet_reader_t* rd, const fspec_t* f, int batch, int nthr
             uint64_t ch = FNV0;
             if (carquet_row_batch_column(b, c, &data, &nb, &nv) != CARQUET_OK) { ch = 1; }
             else {
-                char t = c < f->ncols ? f->types[c] : 'i';
+                int fc = g_proj ? (c == 0 ? f->ncols - 1 : 0) : c;
+                char t = fc < f->ncols ? f->types[fc] : 'i';
                 ch = fnv(ch, &nv, sizeof nv);
                 if (nb && nv > 0) ch = fnv(ch, nb, (size_t)((nv + 7) / 8));
                 if (data && nv > 0 && !(type_optional(t) && g_skip_nulldata)) {
@@ -402,6 +420,7 @@ static gate_ev* dry_run(const fspec_t* f, int mode, int batch, size_t* nref, rre
 
 /* ----------------------------------------------------------------------------------- operations */
 static void op_gates(void) {
+    g_proj = 0;
     fspec_t f; int t = parse_fspec(&f, 1);
     if (t < 0 || h_ntok < t + 2) { puts("ERR args"); return; }
     int mode = parse_mode(h_tok[t]); int batch = atoi(h_tok[t+1]);
@@ -444,6 +463,7 @@ static void op_batch(void) {
     if (t < 0 || h_ntok < t + 4) { puts("ERR args"); return; }
     int mode = parse_mode(h_tok[t]); int batch = atoi(h_tok[t+1]); int nthr = atoi(h_tok[t+2]);
     const char* sched = h_tok[t+3];
+    g_proj = (h_ntok > t + 4 && !strncmp(h_tok[t+4], "proj=", 5)) ? atoi(h_tok[t+4] + 5) : 0;
     int mk = make_file(&f); if (mk) { printf("ERR mkfile %d\n", mk); return; }
     size_t nref = 0; rres_t base; int oc = 0;
     gate_ev* ref = dry_run(&f, mode, batch, &nref, &base, &oc);
@@ -506,6 +526,7 @@ static void* indep_thread(void* p) {
     return NULL;
 }
 static void op_indep(void) {
+    g_proj = 0;
     fspec_t f; int t = parse_fspec(&f, 1);
     if (t < 0 || h_ntok < t + 4) { puts("ERR args"); return; }
     int mode = parse_mode(h_tok[t]); int batch = atoi(h_tok[t+1]); int N = atoi(h_tok[t+2]); int inner = atoi(h_tok[t+3]);
@@ -599,6 +620,7 @@ static void* fu_thread(void* p) {
     return NULL;
 }
 static void op_firstuse(void) {
+    g_proj = 0;
     fspec_t f; int t = parse_fspec(&f, 1);
     if (t < 0 || h_ntok < t + 4) { puts("ERR args"); return; }
     int mode = parse_mode(h_tok[t]); int N = atoi(h_tok[t+1]); int trials = atoi(h_tok[t+2]);
@@ -608,7 +630,7 @@ static void op_firstuse(void) {
     /* the file is made by a child so that this process stays untouched */
     fflush(stdout);
     pid_t mk = fork();
-    if (mk == 0) _exit(make_file(&f) ? 3 : 0);
+    if (mk == 0) { int r = make_file(&f); COV_FLUSH(); _exit(r ? 3 : 0); }
     int st = 0; waitpid(mk, &st, 0);
     if (!WIFEXITED(st) || WEXITSTATUS(st) != 0) { puts("ERR mkfile"); return; }
     int differ = 0, crashed = 0, badstatus = 0, first = -1;
@@ -629,6 +651,7 @@ static void op_firstuse(void) {
             if (alone.bad_status) rc = 6;
             for (int i = 0; i < N; i++) fu_close(&a[i]);
             fu_close(&alone);
+            COV_FLUSH();
             _exit(rc);
         }
         int s2 = 0; waitpid(pid, &s2, 0);
